@@ -43,7 +43,7 @@ CHECKS.update({
    note=TRUST + "The reflection-based field writes (maybeInject*) are opaque; what is proved is the value handed to them. Nesting/disjointness over a whole tree is a paper lemma from monotonicity.",
    ref="DESIGN.md section 4, C11"),
  "C06": dict(level="proof",
-   text="Panic-freedom (index, slice, nil, type-assertion, explicit panic obligations) and error shape for the runtime functions under contract: all PeekingLexer operations, StatefulLexer.Next, every node's Parse, parseContext methods, parseInto/parseOne/getElidedTypes: a non-nil error is a participle.Error or comes from user code (errOK, carried through deepestError bookkeeping), lexer token positions are exact (shared with C04), the lexing functions are non-recursive (bounded stack). FormatError, lexer.formatError and the Error() methods are proved to produce [file:]line:col: + space + message whenever a position is known. The text/scanner-based lexer's errors (located, consistent line/column) are explored by a bounded stand-in.",
+   text="Panic-freedom (index, slice, nil, type-assertion, explicit panic obligations) and error shape for the runtime functions under contract: all PeekingLexer operations, StatefulLexer.Next, every node's Parse, parseContext methods, parseInto/parseOne/getElidedTypes: a non-nil error is a participle.Error or comes from user code (errOK, carried through deepestError bookkeeping), lexer token positions are exact (shared with C04), the lexing functions are non-recursive (bounded stack). FormatError, lexer.formatError and the Error() methods are proved to produce [file:]line:col: + space + message whenever a position is known. The text/scanner-based lexer's errors (located, consistent line/column), the stack needed by long flat inputs (100 000-200 000 tokens under a 16 MiB stack cap) and captures into Capture / TextUnmarshaler fields are explored by bounded stand-ins.",
    note=TRUST + "Not decided: recursion depth of the parser proper and 'never hangs' beyond the per-loop measures. Assumed: the root type's node exists in the parser's type table and is well-formed; disjunction's documented 'did not progress' panic is excluded by the property's premise; Build is proved to validate every Elide() name against the symbol table of the parser's lexer, through the mapping wrapper (the Parser invariant getElidedTypes relies on; assumed at the entry points, established by the constructor).",
    ref="DESIGN.md section 4, C06"),
  "C01": dict(level="proof",
